@@ -74,7 +74,7 @@ fn main() {
             let wall = t0.elapsed().as_secs_f64();
             let replays = PathBuf::from(verif_dir()).join("replays");
             let mut viols = vec![];
-            for f in &rep.failures {
+            for f in rep.failures.iter().take(3) {
                 let path = drive::write_replay(&replays, p.id, f);
                 println!("VIOLATION property={} replay={}", p.id, path.display());
                 println!("  driver={} schedule={:?}", drive::DRIVER, f.sched);
